@@ -12,13 +12,15 @@ Import ListNotations.
 Local Open Scope N_scope.
 
 Inductive token :=
-| TWord (s : string)        (* {identifier}: unquoted identifier or keyword, spelling kept *)
+| TWord (s : string) (ue : bool)   (* {identifier}: unquoted identifier or keyword, spelling kept; ue: it spells UESCAPE *)
 | TQIdent (s : string)      (* "..." with "" undoubled *)
 | TUIdent (s : string)      (* U&"..." (escapes are decoded later, by the parser) *)
 | TStr (s : string)         (* string constant, decoded value *)
 | TNum (s : string)         (* numeric constant, spelling *)
 | TParam (s : string)       (* $n, digits *)
 | TOp (s : string)          (* operator, incl. <= >= <> != => *)
+| TRun (s : string) (star : bool)  (* raw lexer only: a maximal run of operator characters (star: it is exactly "*");
+                               [expand_ops] applies the {operator} rule to it *)
 | TSelf (c : ascii)         (* , ( ) [ ] . ; : + - * / % ^ < > = *)
 | TCast                     (* :: *)
 | TDotDot                   (* .. *)
@@ -48,12 +50,32 @@ Definition wkind_of_first (c : ascii) : wkind :=
   else if (n =? 85) || (n =? 117) then WkU
   else WkOther.
 
+Inductive opl := OlDash | OlSlash | OlOther.
+Definition opl_of (c : ascii) : opl :=
+  if Ascii.eqb c "-" then OlDash else if Ascii.eqb c "/" then OlSlash else OlOther.
+
+(* progress through the keyword UESCAPE, case-insensitively *)
+Definition lower (c : ascii) : ascii :=
+  let n := nb c in if (65 <=? n) && (n <=? 90) then ascii_of_N (n + 32) else c.
+Definition uescape_kw : string := "uescape".
+Definition ue_next (ue : option nat) (c : ascii) : option nat :=
+  match ue with
+  | Some n => match String.get n uescape_kw with
+              | Some d => if Ascii.eqb (lower c) d then Some (S n) else None
+              | None => None
+              end
+  | None => None
+  end.
+Definition ue_done (ue : option nat) : bool := match ue with Some 7%nat => true | _ => false end.
+
 Inductive lstate :=
 | LInit
-| LWord (k : wkind) (acc : string)        (* acc: characters read, in order *)
+| LWord (k : wkind) (one : bool) (ue : option nat) (acc : string)
+    (* acc: characters read, in order; one: exactly one character so far; ue: acc is (case-insensitively)
+       the first ue characters of "uescape".  Control never inspects acc itself. *)
 | LUAmp (u : ascii)                       (* read U& *)
-| LQIdent (acc : string) | LQIdentQ (acc : string)
-| LUIdent (acc : string) | LUIdentQ (acc : string)
+| LQIdent (ne : bool) (acc : string) | LQIdentQ (ne : bool) (acc : string)   (* ne: acc is not empty *)
+| LUIdent (ne : bool) (acc : string) | LUIdentQ (ne : bool) (acc : string)
 | LStr (esc : bool) (acc : string)        (* inside '...'; esc: backslash is an escape character *)
 | LStrEsc (acc : string)                  (* after a backslash inside an escape string *)
 | LStrQ (esc : bool) (acc : string)       (* after a quote inside a string: end or first half of '' *)
@@ -63,15 +85,10 @@ Inductive lstate :=
 | LDot
 | LDollar | LParam (acc : string)
 | LColon
-| LOp (acc : string)
+| LOp (star : bool) (last : opl) (acc : string)   (* star: acc = "*"; last: class of the last character *)
 | LErr.
 
 Definition snoc (s : string) (c : ascii) : string := append s (String c EmptyString).
-Definition last_is (s : string) (c : ascii) : bool :=
-  match list_of_string s with
-  | [] => false
-  | l => Ascii.eqb (List.last l c) c && negb (Nat.eqb (List.length l) 0)
-  end.
 
 (* the {operator} rule: strip trailing + and - unless a "special" character occurs; what is
    stripped is pushed back and re-lexed, which yields single + / - tokens *)
@@ -108,10 +125,10 @@ Definition num_token (acc : string) : list token := [TNum acc].
 Definition close (st : lstate) : option (list token) :=
   match st with
   | LInit => Some []
-  | LWord _ acc => Some [TWord acc]
-  | LUAmp u => Some [TWord (String u EmptyString); TOp "&"]
-  | LQIdentQ acc => match acc with EmptyString => None | _ => Some [TQIdent acc] end
-  | LUIdentQ acc => match acc with EmptyString => None | _ => Some [TUIdent acc] end
+  | LWord _ _ ue acc => Some [TWord acc (ue_done ue)]
+  | LUAmp u => Some [TWord (String u EmptyString) false; TRun "&" false]
+  | LQIdentQ ne acc => if ne then Some [TQIdent acc] else None
+  | LUIdentQ ne acc => if ne then Some [TUIdent acc] else None
   | LStrQ _ acc | LStrWs _ acc _ => Some [TStr acc]
   | LInt acc | LFrac acc | LExp acc => Some (num_token acc)
   | LIntDot acc => Some (num_token (snoc acc "."))
@@ -119,8 +136,8 @@ Definition close (st : lstate) : option (list token) :=
   | LDollar => Some [TBad "$"]
   | LParam acc => Some [TParam acc]
   | LColon => Some [TSelf ":"]
-  | LOp acc => Some (close_op acc)
-  | LQIdent _ | LUIdent _ | LStr _ _ | LStrEsc _ | LNumE _ | LNumESign _ | LErr => None
+  | LOp star _ acc => Some [TRun acc star]
+  | LQIdent _ _ | LUIdent _ _ | LStr _ _ | LStrEsc _ | LNumE _ | LNumESign _ | LErr => None
   end.
 
 Section Lex.
@@ -129,14 +146,14 @@ Section Lex.
   (* first character of a token *)
   Definition start (c : ascii) : lstate * list token :=
     if is_space c then (LInit, [])
-    else if is_ident_start c then (LWord (wkind_of_first c) (String c EmptyString), [])
+    else if is_ident_start c then (LWord (wkind_of_first c) true (ue_next (Some 0%nat) c) (String c EmptyString), [])
     else if is_digit c then (LInt (String c EmptyString), [])
-    else if Ascii.eqb c """" then (LQIdent EmptyString, [])
+    else if Ascii.eqb c """" then (LQIdent false EmptyString, [])
     else if Ascii.eqb c "'" then (LStr (negb scs) EmptyString, [])
     else if Ascii.eqb c "." then (LDot, [])
     else if Ascii.eqb c "$" then (LDollar, [])
     else if Ascii.eqb c ":" then (LColon, [])
-    else if is_op_char c then (LOp (String c EmptyString), [])
+    else if is_op_char c then (LOp (Ascii.eqb c "*") (opl_of c) (String c EmptyString), [])
     else if is_self c then (LInit, [TSelf c])
     else (LInit, [TBad c]).
 
@@ -165,8 +182,8 @@ Section Lex.
     match st with
     | LErr => (LErr, [])
     | LInit => start c
-    | LWord k acc =>
-        if is_ident_cont c then (LWord WkOther (snoc acc c), [])
+    | LWord k one ue acc =>
+        if is_ident_cont c then (LWord WkOther false (ue_next ue c) (snoc acc c), [])
         else if Ascii.eqb c "'" then
           match k with
           | WkE => (LStr true EmptyString, [])               (* E'...' *)
@@ -174,22 +191,23 @@ Section Lex.
           | _ => restart st c
           end
         else if Ascii.eqb c "&" then
-          match k, acc with
-          | WkU, String u EmptyString => (LUAmp u, [])
+          match k, one with
+          | WkU, true => (LUAmp (match acc with String u _ => u | EmptyString => "U"%char end), [])
           | _, _ => restart st c
           end
         else restart st c
     | LUAmp u =>
-        if Ascii.eqb c """" then (LUIdent EmptyString, [])
+        if Ascii.eqb c """" then (LUIdent false EmptyString, [])
         else if Ascii.eqb c "'" then (LErr, [])              (* U&'...' *)
         else
           (* the word U, then an operator starting with & *)
-          if is_op_char c then (LOp (String "&" (String c EmptyString)), [TWord (String u EmptyString)])
-          else let (st', ts') := start c in (st', [TWord (String u EmptyString); TOp "&"] ++ ts')
-    | LQIdent acc => if Ascii.eqb c """" then (LQIdentQ acc, []) else (LQIdent (snoc acc c), [])
-    | LQIdentQ acc => if Ascii.eqb c """" then (LQIdent (snoc acc c), []) else restart st c
-    | LUIdent acc => if Ascii.eqb c """" then (LUIdentQ acc, []) else (LUIdent (snoc acc c), [])
-    | LUIdentQ acc => if Ascii.eqb c """" then (LUIdent (snoc acc c), []) else restart st c
+          if is_op_char c then
+            (LOp false (opl_of c) (String "&" (String c EmptyString)), [TWord (String u EmptyString) false])
+          else let (st', ts') := start c in (st', [TWord (String u EmptyString) false; TRun "&" false] ++ ts')
+    | LQIdent ne acc => if Ascii.eqb c """" then (LQIdentQ ne acc, []) else (LQIdent true (snoc acc c), [])
+    | LQIdentQ ne acc => if Ascii.eqb c """" then (LQIdent true (snoc acc c), []) else restart st c
+    | LUIdent ne acc => if Ascii.eqb c """" then (LUIdentQ ne acc, []) else (LUIdent true (snoc acc c), [])
+    | LUIdentQ ne acc => if Ascii.eqb c """" then (LUIdent true (snoc acc c), []) else restart st c
     | LStr esc acc =>
         if Ascii.eqb c "'" then (LStrQ esc acc, [])
         else if esc && Ascii.eqb c "\" then (LStrEsc acc, [])
@@ -252,10 +270,13 @@ Section Lex.
         if Ascii.eqb c ":" then (LInit, [TCast])
         else if Ascii.eqb c "=" then (LInit, [TColonEq])
         else restart st c
-    | LOp acc =>
+    | LOp star last acc =>
         if is_op_char c then
-          if (last_is acc "-" && Ascii.eqb c "-") || (last_is acc "/" && Ascii.eqb c "*") then (LErr, [])  (* comment *)
-          else (LOp (snoc acc c), [])
+          match last with
+          | OlDash => if Ascii.eqb c "-" then (LErr, []) else (LOp false (opl_of c) (snoc acc c), [])   (* -- comment *)
+          | OlSlash => if Ascii.eqb c "*" then (LErr, []) else (LOp false (opl_of c) (snoc acc c), [])  (* /* comment *)
+          | OlOther => (LOp false (opl_of c) (snoc acc c), [])
+          end
         else restart st c
     end.
 
@@ -270,5 +291,9 @@ Section Lex.
     let (st', ts) := lrun st s in
     match close st' with Some t => Some (ts ++ t) | None => None end.
 
-  Definition pg_lex (s : string) : option (list token) := lex_from LInit s.
+  (* the {operator} rule applied to every run of operator characters *)
+  Definition expand_ops (ts : list token) : list token :=
+    flat_map (fun t => match t with TRun acc _ => close_op acc | _ => [t] end) ts.
+
+  Definition pg_lex (s : string) : option (list token) := option_map expand_ops (lex_from LInit s).
 End Lex.
